@@ -406,6 +406,7 @@ def big_collect(chk, procs, tally, timeout=3600):
 def random_ring_cases(chk, ucmod, idxmod, n, tally, rng):
     """mode C driver: seeded float cells in the property's domain, arbitrary tolerances"""
     done = 0
+    prev = None
     for i in range(n):
         kind = ("pseudo", "ortho", "tri", "pseudo", "tri")[i % 5]
         cell, vol = L.random_cell(rng, kind)
@@ -482,6 +483,27 @@ def random_ring_cases(chk, ucmod, idxmod, n, tally, rng):
             except L.Unmappable as e:
                 tally.add("rings:unmappable", len(uc.peaks), "ring table cannot be mapped on the list: %s" % e, params2)
         uc.makerings(limit, tol)
+        # two objects alive (multi-phase work): the ring table and the list of the PREVIOUS case's object must be
+        # untouched by everything that was done to this one (no state shared between unitcell objects)
+        if prev is not None:
+            puc, ptol, pparams, psnap = prev
+            params3 = dict(pparams, route="makerings (another unitcell object made its rings since; this object was not touched)")
+            tid3 = len(tally.ring_traces)
+            try:
+                tally.ring_traces.append(L.ring_trace(puc, ptol, tid3, "makerings"))
+                tally.ring_params[tid3] = params3
+                chk.traces += 1
+                chk.case(("ringother", tid3))
+                now = (list(puc.ringds), sorted((k, [tuple(int(y) for y in h) for h in v]) for k, v in puc.ringhkls.items()),
+                       [(p[0], tuple(int(y) for y in p[1])) for p in puc.peaks])
+                if now != psnap:
+                    tally.add("rings:shared-state", 1, "ring table / reflection list of a unitcell object changed while "
+                              "only ANOTHER unitcell object was used", params3)
+            except L.Unmappable as e:
+                tally.add("rings:unmappable", len(puc.peaks), "ring table of an untouched object cannot be mapped on its list "
+                          "after another object made its rings: %s" % e, params3)
+        prev = (uc, tol, params, (list(uc.ringds), sorted((k, [tuple(int(y) for y in h) for h in v]) for k, v in uc.ringhkls.items()),
+                                  [(p[0], tuple(int(y) for y in p[1])) for p in uc.peaks]))
         if i % 3 == 0:
             indexer_route(chk, ucmod, idxmod, cell, cen, limit, tol, uc, tally, rng)
     return done
